@@ -423,7 +423,9 @@ def gen_case(seed):
         'profile': PROFILE, 'seed': seed,
         'conflict': conflict, 'rebuild': rebuild,
         'opts': {'precision': None, 'unit': unit, 'emit_step': 1, 't0': 0,
-                 'composite_init': swarm['composite_init'], 'store_entry': store_entry},
+                 'composite_init': swarm['composite_init'], 'store_entry': store_entry,
+                 'composite_own_state': bool(swarm['composite_init'] and
+                                             Rng(derive(seed, 'composite_own_state')).chance(50))},
         'pool': [[list(p_), a] for p_, a in pool.items()],
         'gsub': [[list(g), {v: a for v, a in sub.items()}] for g, sub in gsub.items()],
         'procs': procs, 'init': init_state, 'ops': ops,
@@ -510,6 +512,26 @@ def budget_for(case, units):
     return 12000 * (units + 20) * n
 
 
+def split_init(case, init):
+    """(state the composite holds itself, state given in the config of
+    initial_state()): a seeded split of the leaves of the initial state when
+    the case asks for it, else everything in the config."""
+    if not case['opts'].get('composite_own_state'):
+        return {}, init
+    own, cfg = {}, {}
+
+    def walk(d, path):
+        for k, v in d.items():
+            if isinstance(v, dict) and v and not ('__q__' in v or '__nd__' in v):
+                walk(v, path + [k])
+            else:
+                # (decided per leaf, whatever the order the dictionaries are listed in)
+                mine = Rng(derive(case.get('seed', 0), 'own_state', '/'.join(path + [k]))).chance(50)
+                harness.assoc(own if mine else cfg, path + [k], copy.deepcopy(v))
+    walk(init, [])
+    return own, cfg
+
+
 def execute(case, perm=None, parallel=(), sim_seed=None, tail_ops=()):
     from dst.parties import decode_value
     opts = case['opts']
@@ -524,10 +546,11 @@ def execute(case, perm=None, parallel=(), sim_seed=None, tail_ops=()):
             init = kernel.permute_dict(init, Rng(perm))
         if opts.get('composite_init'):
             from vivarium.core.composer import Composite
-            comp = Composite({'processes': processes, 'topology': topology})
+            own, cfg = split_init(case, init)
+            comp = Composite({'processes': processes, 'topology': topology, 'state': own})
             try:
                 run.extra['composite_default'] = comp.default_state()
-                run.extra['composite_initial'] = comp.initial_state({'initial_state': copy.deepcopy(init)})
+                run.extra['composite_initial'] = comp.initial_state({'initial_state': copy.deepcopy(cfg)})
                 # history on one object: asking again without the explicit state
                 run.extra['composite_initial_again'] = comp.initial_state()
                 init = copy.deepcopy(run.extra['composite_initial'])
@@ -744,6 +767,8 @@ def check(case, run, stats=None):
                     given = get_in(pinit, e.spath)
                     if given is not None:
                         harness.assoc(exp_again, list(e.abs), _dec(given))
+        # (what the composite holds itself stays, what the config of the first call gave does not)
+        exp_again = merge(exp_again, _dec(split_init(case, case.get('init') or {})[0]))
         got_again = run.extra.get('composite_initial_again')
         if not _flat_eq(flat(_strip_probe(got_again), ls), flat(exp_again, ls)):
             return [V('C15', 'C15.composite-state', 'initial-second-call',
